@@ -336,7 +336,7 @@ def report(pid, tier, seed, results, lemma_res, extra_results, checker_errors, t
         else:
             undecided.append(ob)
     for r in results:
-        if not r["error"] and per_fn_count.get(r["function"], 0) == 0:
+        if not r["error"] and not r["unsupported"] and per_fn_count.get(r["function"], 0) == 0:
             checker_errors.append("%s: zero obligations generated" % r["function"])
         if r["paths"] and len(dead_paths.get(r["function"], [])) >= r["paths"]:
             checker_errors.append("%s: every path has unsatisfiable assumptions (vacuous contract)" % r["function"])
